@@ -687,7 +687,7 @@ def gen_case(arg):
     """worker: one generated abstract program -> trace dict (or an error record)"""
     from fontTools.feaLib.error import FeatureLibError
 
-    prog, maxlen = arg
+    prog, maxlen, seed, cap = arg
     names = [None] + GLYPHS
     order = [".notdef"] + GLYPHS
     advs = {n: ADV[i] for i, n in enumerate(GLYPHS)}
@@ -714,7 +714,14 @@ def gen_case(arg):
         alphabet.append(marks[0])
     if maxlen > 3 and has_kind(prog, {"flag"}) and has_kind(prog, {"sub", "csub"}):
         maxlen = 3  # HarfBuzz's ligature-component bookkeeping is only provably inert up to length 3
-    seqs = all_seqs(sorted(alphabet), maxlen)
+    seqs = all_seqs(sorted(alphabet), min(maxlen, 2))
+    import random
+    rng = random.Random("%d-%s" % (seed, common.digest(prog)))
+    for n in range(3, maxlen + 1):  # longer sequences: all of them, or a seeded sample of `cap`
+        longer = [list(q) for q in itertools.product(sorted(alphabet), repeat=n)]
+        if len(longer) > cap:
+            longer = [longer[i] for i in sorted(rng.sample(range(len(longer)), cap))]
+        seqs += longer
     alts = (1, 2) if has_kind(prog, {"alt"}) else (1,)
     ident = {i: i for i in range(1, NG + 1)}
     proj, unsupported, probes = observe(data, prog, ident, ident, list(range(1, NG + 1)), seqs, alts)
@@ -726,23 +733,44 @@ def gen_case(arg):
 
 
 def generate(chk):
-    """Programs from the TLC program-builder machine."""
-    progs = {}
-    r = chk.tlc("MC_FeaSem", cfg="MC_FeaSem", label="MC_FeaSem exhaustive (laws + GEN)", timeout=900)
-    for payload in r.prints.get("GEN", []):
-        progs.setdefault(payload[0], None)
-    n_ex = len(progs)
-    chk.notes["mc_exhaustive"] = {"distinct_states": r.distinct, "programs": n_ex, "depth": r.depth}
-    chk.log("MC_FeaSem exhaustive: %d states, %d complete programs" % (r.distinct, n_ex))
-    num, depth = (5000, 26) if chk.tier == "quick" else (60000, 30)
-    r2 = chk.tlc("MC_FeaSem", cfg="MC_FeaSem_sim", simulate="num=%d" % num, depth=depth, workers=1,
-                 label="MC_FeaSem simulation (laws + GEN)", timeout=1500)
-    for payload in r2.prints.get("GEN", []):
-        progs.setdefault(payload[0], None)
-    chk.notes["mc_simulation"] = {"walks": num, "depth": depth, "programs_new": len(progs) - n_ex}
-    chk.log("MC_FeaSem simulation: %d further complete programs" % (len(progs) - n_ex))
-    out = [json.loads(js) for js in progs]
-    return out, n_ex
+    """Programs from the TLC program-builder machine: the exhaustive small configuration (with the
+    internal laws as invariant) and, concurrently, NSLICES single-worker simulation runs (each
+    deterministic for the seed; slice i starts from every NSLICES-th preamble)."""
+    import time
+    from concurrent.futures import ThreadPoolExecutor
+
+    thorough = chk.tier == "thorough"
+    nsl = 8
+    num, depth = (140, 30) if not thorough else (2500, 32)
+
+    def exhaustive():
+        return chk.tlc("MC_FeaSem", cfg="MC_FeaSem_full" if thorough else "MC_FeaSem", workers=8, env=JVM_ENV,
+                       label="MC_FeaSem exhaustive (laws + GEN)", timeout=2400)
+
+    def slice_(i):
+        time.sleep(0.5 * (i + 1))  # chk.tlc numbers its scratch directories when it starts
+        return chk.tlc("MC_FeaSem", cfg="MC_FeaSem_sim", simulate="num=%d" % num, depth=depth, workers=1, heap="2g",
+                       env=dict(JVM_ENV, C11_SLICE=i, C11_NSLICES=nsl), label="MC_FeaSem simulation slice %d (GEN)" % i, timeout=2400)
+
+    with ThreadPoolExecutor(nsl + 1) as ex:
+        f0 = ex.submit(exhaustive)
+        fs = [ex.submit(slice_, i) for i in range(nsl)]
+        r = f0.result()
+        sims = [f.result() for f in fs]
+    small = list(dict.fromkeys(p[0] for p in r.prints.get("GEN", [])))
+    chk.notes["mc_exhaustive"] = {"distinct_states": r.distinct, "complete_programs": len(small), "depth": r.depth, "wall_s": round(r.wall, 1)}
+    chk.log("MC_FeaSem exhaustive: %d states, %d complete programs, laws hold" % (r.distinct, len(small)))
+    seen = set(small)
+    big = []
+    for rs in sims:
+        for p in rs.prints.get("GEN", []):
+            if p[0] not in seen:
+                seen.add(p[0])
+                big.append(p[0])
+    chk.notes["mc_simulation"] = {"slices": nsl, "walks_per_slice": num, "depth": depth, "complete_programs": len(big),
+                                  "states": sum(x.generated for x in sims)}
+    chk.log("MC_FeaSem simulation: %d further complete programs" % len(big))
+    return [json.loads(x) for x in small], [json.loads(x) for x in big]
 
 
 def nontrivial_gen(t):
@@ -1002,7 +1030,7 @@ def judge(chk, traces, label):
     if not traces:
         return []
     rejected = []
-    step = 400
+    step = 450
     for base in range(0, len(traces), step):
         part = traces[base:base + step]
         r = chk.tlc("Trace_C11", traces=[strip(t) for t in part], timeout=1500, label=label, heap="8g", env=JVM_ENV)
@@ -1031,15 +1059,17 @@ def run(chk):
                 "and the corpus .fea files; a program is non-trivial if shaping changes at least one probe sequence "
                 "(glyphs or positions)")
     thorough = chk.tier == "thorough"
-    progs, n_ex = generate(chk)
+    small, big = generate(chk)
     maxlen = 4 if thorough else 3
-    budget = 40000 if thorough else 2600
-    if len(progs) > budget:
-        head, tail = progs[:n_ex], progs[n_ex:]
-        chk.rng.shuffle(tail)
-        progs = (head + tail)[:budget] if len(head) < budget else head[:budget]
+    cap = 400 if thorough else 64
+    n_small, n_big = (6000, 14000) if thorough else (250, 500)
+    chk.rng.shuffle(small)
+    chk.rng.shuffle(big)
+    progs = small[:n_small] + big[:n_big]
+    chk.notes["programs"] = {"generated_small": len(small), "generated_simulation": len(big), "run_through_real_code": len(progs),
+                             "max_sequence_length": maxlen, "longer_sequences_sampled_above": cap}
     chk.log("compiling and observing %d generated programs" % len(progs))
-    results = common.pmap(gen_case, [(p, maxlen) for p in progs], procs=14, chunksize=8)
+    results = common.pmap(gen_case, [(p, maxlen, chk.seed, cap) for p in progs], procs=14, chunksize=8)
     traces = []
     for t in results:
         if "error" in t:
@@ -1055,8 +1085,7 @@ def run(chk):
     for t in traces[:3]:
         chk.sample({"fea": t["text"], "probes": len(t["probes"]), "sequences": len(t["seqs"]),
                     "example": {"seq": t["seqs"][-1], "harfbuzz": t["probes"][0]["hb"][-1]}})
-    chk.log("judging %d generated programs (%d probe sequences)" % (len(traces), chk.evaluations))
-    report(chk, judge(chk, traces, "Trace_C11 generated"), "gen")
+    chk.log("%d generated programs observed (%d probe sequences)" % (len(traces), chk.evaluations))
 
     # corpus
     files = common.corpus_files(".fea")
@@ -1082,7 +1111,14 @@ def run(chk):
         ctraces.append(t)
     chk.notes["corpus"] = stats
     chk.log("corpus: %r" % stats)
-    report(chk, judge(chk, ctraces, "Trace_C11 corpus"), "corpus")
+    for t in traces:
+        t["kind"] = "gen"
+    for t in ctraces:
+        t["kind"] = "corpus"
+    chk.log("judging %d generated programs and %d corpus files" % (len(traces), len(ctraces)))
+    rejected = judge(chk, ctraces + traces, "Trace_C11")
+    report(chk, [r for r in rejected if r[0]["kind"] == "corpus"], "corpus")
+    report(chk, [r for r in rejected if r[0]["kind"] == "gen"], "gen")
     chk.exhaustive = False
     chk.assumptions += [
         "HarfBuzz 12 (uharfbuzz) is an observer only; probes are restricted to configurations where it is plain OpenType: glyph-id "
@@ -1103,7 +1139,7 @@ def replay(chk, rep):
     r = rep["replay"]
     chk.log("replaying %s case against the current tree" % r.get("kind"))
     if r.get("kind") == "gen":
-        t = gen_case((r["prog"], 3))
+        t = gen_case((r["prog"], 3, chk.seed, 400))
         if "error" in t:
             chk.reject("generated:" + t["error"].split(":")[0], t["error"] + "\n" + t["text"], r)
             return
